@@ -8,7 +8,7 @@ import tempfile
 import numpy
 
 from .. import witness
-from ..core import digest
+from ..core import digest, scratch_dir
 
 UTC = datetime.timezone.utc
 EPOCH = datetime.datetime(1970, 1, 1, tzinfo=UTC)
@@ -27,7 +27,7 @@ META = {
     "exhaustive_tiers": {"quick": {"catalogs n<=4 x 0..2 events x placeholder choices x header x 3 time spellings": True},
                          "thorough": {"catalogs n<=5 x 0..2 events x placeholder choices x header x 3 time spellings": True}},
 }
-META["added"] = 'Added: writer-model witness (sys.monitoring branch pairs), zero-valued fields, decreasing ids where the offending row is a placeholder row (with / without header). fractions with trailing zeros left out, LF / CRLF line ends and missing final terminator.'
+META["added"] = 'Added: writer-model witness (sys.monitoring branch pairs), zero-valued fields, decreasing ids where the offending row is a placeholder row (with / without header). fractions with trailing zeros left out, LF / CRLF line ends and missing final terminator. exponent-notation fields incl. the first data row; the same file path re-used by every case.'
 MANIFEST = {
     "technique": "boundary recorder on the three loaders, exactly-once/ordering stream checker against the writer model; sys.monitoring LINE witness on the decoder generator recording branch transitions; exhaustive small encodings + random long files + rejection cases",
     "level_text": "All encodings of n<=4 (quick) / n<=5 (thorough) catalogs with 0..2 events, every placeholder/omitted choice, with/without header and three time spellings are enumerated completely and decoded through all three loaders; the yielded stream must be ids 0..n-1 in order with bit-identical fields; random files with long gaps and hostile ids; files with decreasing ids must be rejected. The witness lists decoder branch pairs actually executed.",
@@ -164,12 +164,16 @@ def mk_event(r, i, hostile_id=False):
         # zero-valued fields are legitimate values (epoch instant, equator, prime meridian, surface, magnitude 0)
         k = int(z / 0.03)
         ms, lat, lon, dep, mag = (0 if k == 0 else ms), (0.0 if k == 1 else lat), (0.0 if k == 2 else lon), (0.0 if k == 3 else dep), (0.0 if k == 4 else mag)
+    elif z < 0.22:
+        # values whose shortest text form uses exponent notation (within 1e-4 of the prime meridian / equator / surface)
+        k = int((z - 0.15) / 0.0234)
+        lon, lat, dep = (float(r.choice([5e-05, -2.5e-07])) if k == 0 else lon), (1e-05 if k == 1 else lat), (3e-06 if k == 2 else dep)
     return (eid, ms, lat, lon, dep, mag)
 
 
 def ex_encoding(ctx, cats, placeholders, header, spelling, full=True, line_end="crlf"):
     cats = [[tuple(e) for e in c] for c in cats]
-    tmp = tempfile.mkdtemp(prefix="c12-", dir=os.environ.get("VERIF_TMP", "/var/tmp"))
+    tmp = scratch_dir("c12-")
     path = os.path.join(tmp, "forecast.csv")
     try:
         expected = write_file(path, cats, placeholders, header, spelling)
@@ -205,7 +209,7 @@ def ex_reject(ctx, cats, swap_at, mode="swap", header=False):
     file in which, after the block of catalog swap_at+1, a placeholder row for the smaller id swap_at (or 0) follows."""
     from csep.core.catalogs import CSEPCatalog
     cats = [[tuple(e) for e in c] for c in cats]
-    tmp = tempfile.mkdtemp(prefix="c12r-", dir=os.environ.get("VERIF_TMP", "/var/tmp"))
+    tmp = scratch_dir("c12r-")
     path = os.path.join(tmp, "forecast.csv")
     try:
         order = list(range(len(cats)))
@@ -301,6 +305,12 @@ def run(ctx):
                 s = int(r.integers(0, 4))
             cats.append([mk_event(r, i * 10 + q, hostile_id=(j % 4 == 0)) for q in range(s)])
         ph = [bool(r.uniform() < 0.4) for _ in range(n)]
+        if j % 4 == 1:
+            for c_ in cats:
+                if c_:
+                    e0 = c_[0]                     # the very first data row of the file: longitude written in exponent notation
+                    c_[0] = (e0[0], e0[1], e0[2], float(r.choice([5e-05, -7.5e-06])), e0[4], e0[5])
+                    break
         ex_encoding(ctx, cats, ph, bool(j % 2), ["frac", "whole", "mixed", "short"][j % 4], full=(n <= 30),
                     line_end=["crlf", "lf", "crlf-nofinal", "lf-nofinal"][(j // 4) % 4])
         if j % 60 == 0:
